@@ -15,9 +15,11 @@ import (
 	"fmt"
 	"io/fs"
 	"os"
+	"os/signal"
 	"path/filepath"
 	"sort"
 	"strings"
+	"syscall"
 
 	"github.com/ipfs/boxo/keystore"
 	ci "github.com/libp2p/go-libp2p/core/crypto"
@@ -38,12 +40,34 @@ type lockedKey struct{ ci.PrivKey }
 
 func (lockedKey) Raw() ([]byte, error) { return nil, errors.New("key is locked") }
 
+// faultOK: RLIMIT_FSIZE=0 (with SIGXFSZ ignored) makes file writes fail here.
+var faultOK bool
+
+// withWriteFault runs fn while every write that would grow a regular file
+// fails with EFBIG. The limit is restored before anything else is written.
+func withWriteFault(fn func()) bool {
+	var old syscall.Rlimit
+	if err := syscall.Getrlimit(syscall.RLIMIT_FSIZE, &old); err != nil {
+		return false
+	}
+	if err := syscall.Setrlimit(syscall.RLIMIT_FSIZE, &syscall.Rlimit{Cur: 0, Max: old.Max}); err != nil {
+		return false
+	}
+	defer func() {
+		if err := syscall.Setrlimit(syscall.RLIMIT_FSIZE, &old); err != nil {
+			panic("cannot restore RLIMIT_FSIZE: " + err.Error())
+		}
+	}()
+	fn()
+	return true
+}
+
 type detReader struct{ r *vlib.Rand }
 
 func (d detReader) Read(p []byte) (int, error) { copy(p, d.r.Bytes(len(p))); return len(p), nil }
 
 func run(c *vlib.Ctx) {
-	c.Rule("histories of 8-60 ops {Put,PutLocked (fault: a key whose Raw() fails, on fresh and existing names),Get,Has,Delete,List,Reopen} over a per-case pool of 5-9 names drawn from: path-like ('a/b','../decoy','..','.','/', absolute path of a decoy), NUL / 0xff / unicode, case variants (key/KEY/Key), names equal to another name's base32 or file name, 1-byte names, pairs of 150-156-byte names that differ only in the last byte, random bytes; plus lenient out-of-domain names (empty, >156 bytes). Sandbox P/{ks, ks-evil/x, decoy, key_decoy, key_mrswg33z, ks.bak}; keystore dir pre-existing or created by NewFSKeystore. distinct = FNV of config + op list; non-trivial = history contains a failed Put of an unmarshalable key on a fresh name, a refused overwrite, a Get/Has of a deleted key, a stored name with '/', '..' or NUL, and a List of >= 2 keys")
+	c.Rule("histories of 8-60 ops {Put,PutLocked (fault: a key whose Raw() fails, on fresh and existing names),Get,Has,Delete,List,Reopen} over a per-case pool of 5-9 names drawn from: path-like ('a/b','../decoy','..','.','/', absolute path of a decoy), NUL / 0xff / unicode, case variants (key/KEY/Key), names equal to another name's base32 or file name, 1-byte names, pairs of 150-156-byte names that differ only in the last byte, random bytes; plus lenient out-of-domain names (empty, >156 bytes). Sandbox P/{<ksdir>, ks-evil/x, decoy, key_decoy, key_mrswg33z, ks.bak}; <ksdir> is 'ks' in half of the cases and otherwise a name (or parent/name) with glob metacharacters ('ks-[ab]','k?','ks*','[ks]','k\\s','k[s','p[ab]/ks','*',...) next to sibling directories that the name would match as a pattern, each holding decoy key files; keystore dir pre-existing or created by NewFSKeystore. Fault ops: PutLocked (unmarshalable key) and PutWriteFault (RLIMIT_FSIZE=0 around one Put, EFBIG at the write of the key bytes). distinct = FNV of config + op list; non-trivial = history contains a failed Put of an unmarshalable key on a fresh name, a refused overwrite, a Get/Has of a deleted key, a stored name with '/', '..' or NUL, and a List of >= 2 keys")
 	base = c.TempDir("c40-")
 	defer os.RemoveAll(base)
 	// probe the file-name limit of the sandbox file system once
@@ -54,7 +78,40 @@ func run(c *vlib.Ctx) {
 	} else {
 		os.Remove(probe)
 	}
+	// probe the write-fault injection
+	signal.Ignore(syscall.SIGXFSZ)
+	var perr error
+	if withWriteFault(func() { perr = os.WriteFile(filepath.Join(base, "fault-probe"), []byte("x"), 0o600) }) && perr != nil {
+		faultOK = true
+	} else {
+		c.Note("write_fault", "RLIMIT_FSIZE=0 does not make writes fail here; PutWriteFault ops are skipped")
+	}
+	os.Remove(filepath.Join(base, "fault-probe"))
+	if err := os.WriteFile(filepath.Join(base, "fault-probe2"), []byte("x"), 0o600); err != nil {
+		panic("RLIMIT_FSIZE not restored: " + err.Error())
+	}
+	os.Remove(filepath.Join(base, "fault-probe2"))
 	c.Cases("hist", c.N(1000, 20000), oneHistory)
+}
+
+type layout struct {
+	ks       string   // keystore directory, relative to the sandbox P
+	siblings []string // directories (relative to P) that get decoy key files
+}
+
+var layouts = []layout{
+	{"ks", nil},
+	{"ks-[ab]", []string{"ks-a", "ks-b"}},
+	{"k?", []string{"ks", "kt"}},
+	{"ks*", []string{"ks-old", "ksx"}},
+	{"[ks]", []string{"k", "s"}},
+	{"k\\s", []string{"ks", "k"}},
+	{"k[s", []string{"ks"}},
+	{"ks]", []string{"ks"}},
+	{"p[ab]/ks", []string{"pa/ks", "pb/ks"}},
+	{"p*/k?", []string{"px/ks", "p/ks"}},
+	{"*", []string{"ks", "x"}},
+	{"ks-{a,b}", []string{"ks-a"}},
 }
 
 var codec = base32.StdEncoding.WithPadding(base32.NoPadding)
@@ -159,7 +216,14 @@ func oneHistory(k *vlib.Case) {
 	must(os.RemoveAll(root))
 	must(os.MkdirAll(root, 0o755))
 	defer os.RemoveAll(root)
-	w := &world{k: k, root: root, dir: filepath.Join(root, "ks"), model: map[string]int{}}
+	// keystore directory (and parent) names: half of the cases use names with
+	// glob metacharacters, next to sibling directories that such a "pattern"
+	// would match and that hold decoy key files.
+	lay := layouts[0]
+	if r.Bool() {
+		lay = vlib.Pick(r, layouts[1:])
+	}
+	w := &world{k: k, root: root, dir: filepath.Join(root, lay.ks), model: map[string]int{}}
 
 	// keys
 	nk := r.Range(2, 4)
@@ -186,6 +250,12 @@ func oneHistory(k *vlib.Case) {
 	for _, f := range []string{"decoy", "key_decoy", "key_mrswg33z", "ks.bak", "ks-evil/x", "ks-evil/key_mrswg33z"} {
 		must(os.WriteFile(filepath.Join(root, f), decoy, 0o600))
 	}
+	for _, sib := range lay.siblings {
+		must(os.MkdirAll(filepath.Join(root, sib), 0o700))
+		must(os.WriteFile(filepath.Join(root, sib, "key_mrswg33z"), decoy, 0o600))
+		must(os.WriteFile(filepath.Join(root, sib, "key_mjqxe"), decoy, 0o600)) // base32("bar")
+	}
+	must(os.MkdirAll(filepath.Dir(w.dir), 0o755))
 	preexisting := r.Bool()
 	if preexisting {
 		must(os.Mkdir(w.dir, 0o700))
@@ -194,7 +264,7 @@ func oneHistory(k *vlib.Case) {
 	if r.Chance(1, 4) {
 		dirArg += "/"
 	}
-	k.Logf("config keys=%d ksdir-preexists=%v dirArg=%q", nk, preexisting, strings.Replace(dirArg, root, "$P", 1))
+	k.Logf("config keys=%d ksdir-preexists=%v dirArg=%q decoy-siblings=%q", nk, preexisting, strings.Replace(dirArg, root, "$P", 1), lay.siblings)
 	w.fsks, err = keystore.NewFSKeystore(dirArg)
 	if err != nil {
 		k.Fail("open-error", "NewFSKeystore succeeds", "nil", err.Error())
@@ -209,7 +279,8 @@ func oneHistory(k *vlib.Case) {
 		k.Logf("name[%d]=%s (%s, %d bytes)", i, w.show(n), feat(n), len(n))
 	}
 
-	var sawRefused, sawDeletedQuery, sawHostileStored, sawList2, sawFailedFresh bool
+	var sawRefused, sawDeletedQuery, sawHostileStored, sawList2, sawFailedFresh, sawWriteFault bool
+	leftover := ""
 	deleted := map[string]bool{}
 	nops := r.Range(8, 60)
 	for i := 0; i < nops && !k.Failed(); i++ {
@@ -288,6 +359,46 @@ func oneHistory(k *vlib.Case) {
 				sawFailedFresh = true
 			}
 			// model unchanged; checkDisk below and the following queries verify it
+		case op < 40:
+			// fault: the file system refuses the write of the key bytes (EFBIG
+			// through RLIMIT_FSIZE=0) after the exclusive create succeeded.
+			ki := r.Intn(len(w.keys))
+			if !faultOK || !inDomain {
+				k.Logf("PutWriteFault name[%d] key%d (skipped: %s)", ni, ki, map[bool]string{true: "name outside the domain", false: "fault injection unavailable"}[faultOK])
+				k.C.Count("write_fault_skipped", 1)
+				break
+			}
+			k.Logf("PutWriteFault name[%d] key%d (write fails with EFBIG)", ni, ki)
+			_, exists := w.model[name]
+			var e1 error
+			withWriteFault(func() { e1 = w.fsks.Put(name, w.keys[ki]) })
+			k.C.Count("write_faults_injected", 1)
+			_, statErr := os.Lstat(filepath.Join(w.dir, fileNameOf(name)))
+			switch {
+			case exists:
+				if !errors.Is(e1, keystore.ErrKeyExists) {
+					k.Fail("fs/write-fault/put-exists-errclass/"+feat(name), "Put on existing name returns ErrKeyExists", "ErrKeyExists", w.show(fmt.Sprint(e1)))
+				}
+			case e1 == nil:
+				// reported success: the key must be there
+				if g, err := w.fsks.Get(name); err != nil || !g.Equals(w.keys[ki]) {
+					k.Fail("fs/write-fault/put-nil-but-no-key/"+feat(name), "Put returned nil => Get returns the key", fmt.Sprintf("key%d", ki), w.show(fmt.Sprint(err)))
+				}
+				must(w.mem.Put(name, w.keys[ki]))
+				w.model[name] = ki
+			case statErr == nil:
+				// Recorded once at the end of the history; the leftover is removed
+				// so that model and store stay in step and everything after this
+				// point is still checked.
+				if leftover == "" {
+					fi, _ := os.Lstat(filepath.Join(w.dir, fileNameOf(name)))
+					leftover = fmt.Sprintf("op %d: Put(name[%d]) error %s; file %q (%d bytes) exists", i, ni, w.show(e1.Error()), fileNameOf(name), fi.Size())
+				}
+				k.C.Count("failed_put_leftovers", 1)
+				must(os.Remove(filepath.Join(w.dir, fileNameOf(name))))
+			default:
+				sawWriteFault = true
+			}
 		case op < 50:
 			k.Logf("Get name[%d]", ni)
 			if !inDomain {
@@ -389,6 +500,12 @@ func oneHistory(k *vlib.Case) {
 	}
 	if sawRefused && sawDeletedQuery && sawHostileStored && sawList2 && sawFailedFresh {
 		k.Nontrivial()
+	}
+	if leftover != "" && !k.Failed() {
+		k.Fail("fs/write-fault/failed-put-leaves-file", "Put returned an error => store unchanged", "no key file after a Put that reported a write error", leftover)
+	}
+	if sawWriteFault {
+		k.C.Count("histories_with_clean_write_fault", 1)
 	}
 	k.C.Count("ops", int64(nops))
 }
